@@ -161,6 +161,11 @@ def request_lists(rng, present, absent, sizes):
             req = [rng.choice(present) for _ in range(size - 1)]
             reqs.append(req + [req[0]])  # a repetition far from its first occurrence
             reqs.append(sorted(req + [absent[0]]))
+        if size >= 4:
+            # many keys that are not found anywhere (the retry lookup takes its own strategy decision) next to packed ones
+            half = size // 2
+            reqs.append(rng.sample(present, min(half, len(present))) + absent[:size - half])
+            reqs.append(absent[:size - 1] + [rng.choice(present)])
     return reqs
 
 
@@ -213,7 +218,7 @@ def check_C16(report: common.Report):
     with common.scratch('bk') as work:
         cont, data, _forms = build(os.path.join(work, 'c'), 24)
         present = [hashlib.sha256(d).hexdigest() for d in data]
-        absent = [hashlib.sha256(b'absent-%d' % i).hexdigest() for i in range(4)]
+        absent = [hashlib.sha256(b'absent-%d' % i).hexdigest() for i in range(14)]
         sizes = [0, 1, 2, 3, 4, 5, 9, 13]
         for thresholds in (defaults, (2, 4), (3, 1000), (1, 2), (1000, 3)):
             Container._IN_SQL_MAX_LENGTH, Container._MAX_CHUNK_ITERATE_LENGTH = thresholds  # pylint: disable=protected-access
